@@ -93,6 +93,14 @@ pub fn stall(height: u64) {
     }
 }
 
+/// Starting value for row / item counters (RBP_VERIF_PRESET_COUNT, default 0)
+pub fn preset_count() -> u64 {
+    std::env::var("RBP_VERIF_PRESET_COUNT")
+        .ok()
+        .and_then(|v| v.parse().ok())
+        .unwrap_or(0)
+}
+
 /// Renders a string as JSON string literal
 pub fn js(s: &str) -> String {
     let mut o = String::with_capacity(s.len() + 2);
